@@ -235,6 +235,8 @@ type Ctx struct {
 	unspecified map[string]bool
 	notes    map[string]bool
 	defs     map[string]string
+	inlineCache map[string]Val
+	inContract int
 }
 
 type structInfo struct {
@@ -247,7 +249,7 @@ type structInfo struct {
 
 func newCtx(g *Global) *Ctx {
 	c := &Ctx{g: g, declared: map[string]bool{}, accIndex: map[string]accInfo{}, structs: map[string]*structInfo{},
-		heapSorts: map[string]bool{}, litStr: map[string]string{}, cntDefs: map[string]string{}, trusted: map[string]bool{}, unspecified: map[string]bool{}, notes: map[string]bool{}, defs: map[string]string{}}
+		heapSorts: map[string]bool{}, litStr: map[string]string{}, cntDefs: map[string]string{}, trusted: map[string]bool{}, unspecified: map[string]bool{}, notes: map[string]bool{}, defs: map[string]string{}, inlineCache: map[string]Val{}}
 	c.accIndex["s.ref"] = accInfo{"mkSlice", 0, 4}
 	c.accIndex["s.off"] = accInfo{"mkSlice", 1, 4}
 	c.accIndex["s.len"] = accInfo{"mkSlice", 2, 4}
@@ -302,6 +304,9 @@ func (c *Ctx) assume(pc, fact string) {
 
 // define introduces a name for a term (keeps terms small).
 func (c *Ctx) define(hint, sort, term string) string {
+	if c.inContract > 0 {
+		return term // terms inside contract expressions may mention bound variables: never lift them out
+	}
 	if len(term) < 40 && !strings.Contains(term, "(ite ") {
 		return term
 	}
@@ -561,6 +566,9 @@ func (c *Ctx) literalAxioms() []string {
 		n := c.litStr[s]
 		names = append(names, n)
 		out = append(out, fmt.Sprintf("(= (gs.len %s) %d)", n, len(s)))
+		if len(s) == 1 {
+			out = append(out, fmt.Sprintf("(= %s (gs.frombyte %s))", n, bvLit(int64(s[0]))))
+		}
 		if len(s) <= 12 {
 			for i := 0; i < len(s); i++ {
 				out = append(out, fmt.Sprintf("(= (gs.at %s %d) %s)", n, i, bvLit(int64(s[i]))))
@@ -584,6 +592,7 @@ const prelude = `
 (declare-fun gs.cat (Str Str) Str)
 (declare-fun gs.sub (Str Int Int) Str)
 (declare-fun gs.frombytes ((Array Int (_ BitVec 8)) Int Int) Str)
+(declare-fun bytes.ofstr (Str) (Array Int (_ BitVec 8)))
 (declare-fun gs.itoa (Int) Str)
 (declare-fun gs.atoi (Str) Int)
 (declare-fun gs.fmtfloat (F64) Str)
@@ -608,6 +617,8 @@ const prelude = `
 (assert (forall ((A (Array Int (_ BitVec 8))) (o Int) (n Int) (j Int)) (! (=> (and (<= 0 j) (< j n)) (= (gs.at (gs.frombytes A o n) j) (select A (+ o j)))) :pattern ((gs.at (gs.frombytes A o n) j)))))
 (assert (forall ((s Str) (a Int) (b Int)) (! (=> (and (<= 0 a) (<= a b) (<= b (gs.len s))) (= (gs.len (gs.sub s a b)) (- b a))) :pattern ((gs.sub s a b)))))
 (assert (forall ((s Str) (a Int) (b Int) (j Int)) (! (=> (and (<= 0 a) (<= 0 j) (< j (- b a))) (= (gs.at (gs.sub s a b) j) (gs.at s (+ a j)))) :pattern ((gs.at (gs.sub s a b) j)))))
+(assert (forall ((s Str) (j Int)) (! (=> (and (<= 0 j) (< j (gs.len s))) (= (select (bytes.ofstr s) j) (gs.at s j))) :pattern ((select (bytes.ofstr s) j)))))
+(assert (forall ((s Str)) (! (= (gs.frombytes (bytes.ofstr s) 0 (gs.len s)) s) :pattern ((bytes.ofstr s)))))
 (assert (forall ((n Int)) (! (= (gs.atoi (gs.itoa n)) n) :pattern ((gs.itoa n)))))
 (assert (forall ((n Int)) (! (>= (gs.len (gs.itoa n)) 1) :pattern ((gs.itoa n)))))
 (assert (forall ((b (_ BitVec 8))) (! (and (= (gs.len (gs.frombyte b)) 1) (= (gs.at (gs.frombyte b) 0) b)) :pattern ((gs.frombyte b)))))
